@@ -1,52 +1,88 @@
 ------------------------------- MODULE Retry -------------------------------
-(* One call (one command; for "clusterbatch" one member of a DoMulti batch) through the retry wrappers of
-   redis/rueidis: singleClient.Do (client.go; also behind the standalone client, standalone.go), sentinelClient.Do
-   (sentinel.go), dedicatedSingleClient.Do (client.go), clusterClient.do and clusterClient.DoMulti/doresultfn
-   (cluster.go), with retryer.WaitOrSkipRetry (retry.go).  Properties C28 and C03.
+(* One call through the retry wrappers of redis/rueidis: singleClient.Do/DoMulti (client.go; also behind the standalone
+   client, standalone.go), sentinelClient.Do/DoMulti (sentinel.go), dedicatedSingleClient.Do/DoMulti (client.go),
+   clusterClient.do and clusterClient.DoMulti/doresultfn (cluster.go), with retryer.WaitOrSkipRetry (retry.go).
+   Properties C28 and C03.
 
    The model is the wrappers' decision logic: after every attempt the server / the network / the connection lifetime
    timer produces an outcome; `Decide` is the code's choice between returning and sending again.  The policy the
    decisions are checked against is RetryPolicy.tla.  `executed` counts executions by the server.
 
+   Shape of the call (`shape`):
+     "one"    one command (Do).  For kind "clusterbatch": one member of a cluster DoMulti plus a read-only sibling that
+              is redirected in the rounds the script says (the per-entry retry of doresultfn).
+     "batch"  DoMulti of two commands, the tracked member (class `class`) followed by a partner (class `pclass`).  The
+              single / standalone / sentinel / dedicated wrappers transmit and re-transmit the batch as a whole and may do so
+              only when *every* member is retry-safe (allRetryable).
+     "tx"     DoMulti of MULTI, member, partner, EXEC.  MULTI and EXEC are never retry-safe, so the non-cluster wrappers
+              never retry the block; the cluster wrapper re-sends the whole block when a queued member was refused with
+              MOVED / ASK (EXEC answered EXECABORT: nothing ran) and otherwise leaves it alone.
+   Connection mode (`path`): "sync" = the request is written and its reply read by the caller itself (first caller on an idle
+   connection); "pipelined" = queue + background reader (AlwaysPipelining, concurrent callers, cancel-only contexts).  It
+   decides what a ConnLifetime expiry under a request in flight looks like: pipelined -> errConnExpired ("expired-sent", which
+   every wrapper answers with a blind re-send: DESIGN.md section 7 #10); sync -> the I/O error of the closed socket
+   ("expired-io", a transport error like any other).
+
    Code-version constants:
      AllowExpiredSent   TRUE = errConnExpired can be handed to a call whose request the server already executed
-                        (pipelined connection, reply later than the 1 s Close grace; DESIGN.md section 7 #10, proved
-                        possible by spec/pipe/Pipe.tla, MC_expiry_asis.cfg).  The code as it is: TRUE.
+                        (pipelined connection, reply later than the 1 s Close grace; #10, proved possible by
+                        spec/fault/Pipe.tla, MC_expiry_asis.cfg).  The code as it is: TRUE.
      AllowBatchSibling  TRUE = in clusterClient.DoMulti an entry whose RetryDelay was negative is sent again when a
-                        sibling entry causes another round (DESIGN.md section 7 #14, the pinned commit).  FALSE = the
-                        repaired doresultfn/resultcachefn.
-     BugIgnoreRetryable, BugRetryErrReply, BugRetryAfterCtx, BugRetryAfterClose   mutations (negative configs). *)
+                        sibling entry causes another round (#14, the pinned commit).  FALSE = the repaired doresultfn.
+     AllowTxResend      TRUE = doresultfn treats a MULTI ... EXEC block whose MULTI was answered +OK as "redirectable" also
+                        when a retry-safe member of the block failed with a network error, and re-sends the whole block.
+     BugIgnoreRetryable, BugRetryErrReply, BugRetryAfterCtx, BugRetryAfterClose, BugBatchAnyRetryable (a batch is retried as
+     soon as one member is retry-safe), BugSyncExpired (the synchronous path reports errConnExpired for a request in
+     flight)   mutations (negative configs). *)
 EXTENDS RetryPolicy, TLC, Json
 
 CONSTANTS KindSet, ClassSet,        \* which wrappers / command classes to explore
+          ShapeSet, PathSet,        \* subsets of {"one", "batch", "tx"} / {"sync", "pipelined"}
           MaxSends,                 \* bound on transmissions of the command
           MaxMoved,                 \* ClusterOption.MaxMovedRedirections (0 = unlimited)
           CtxKinds,                 \* subset of {"none", "cancel", "deadline"}
-          AllowExpiredSent, AllowBatchSibling,
-          BugIgnoreRetryable, BugRetryErrReply, BugRetryAfterCtx, BugRetryAfterClose,
+          AllowExpiredSent, AllowBatchSibling, AllowTxResend,
+          BugIgnoreRetryable, BugRetryErrReply, BugRetryAfterCtx, BugRetryAfterClose, BugBatchAnyRetryable, BugSyncExpired,
           GenMode                   \* TRUE: contexts end / Close happens only right after a server outcome (scenario generation)
 
-VARIABLES kind, class, disable, ctxKind,            \* the scenario (chosen in Init)
-          phase, sends, executed, last, result,     \* the call
+VARIABLES kind, class, disable, ctxKind, shape, pclass, path,     \* the scenario (chosen in Init)
+          phase, sends, executed, last, result,                   \* the call
           attempts, redirects, just, resend, spins,
           ctxDone, closed, hist
 
-vars == <<kind, class, disable, ctxKind, phase, sends, executed, last, result, attempts, redirects, just, resend,
-          spins, ctxDone, closed, hist>>
+scen == <<kind, class, disable, ctxKind, shape, pclass, path>>
+vars == <<kind, class, disable, ctxKind, shape, pclass, path, phase, sends, executed, last, result, attempts, redirects, just,
+          resend, spins, ctxDone, closed, hist>>
 
 NONE == [prev |-> "none"]
 RedisErrors == {"errreply"} \cup LoadingLike \cup Redirects
 NonRedisErrors == Transport \cup Local \cup ExpiredOut
 
+\* which shapes a wrapper has: clusterClient.do is one command; the cluster DoMulti member always has company
+ShapesOf(k) == IF k = "cluster" THEN {"one"} ELSE IF k = "clusterbatch" THEN {"one", "tx"} ELSE {"one", "batch", "tx"}
+ClusterTx == kind = "clusterbatch" /\ shape = "tx"
+\* the members travel (and are re-transmitted) together and are executed together
+Together == shape = "tx" \/ (shape = "batch" /\ kind \notin ClusterKinds)
+
 Init == /\ kind \in KindSet /\ class \in ClassSet /\ disable \in BOOLEAN /\ ctxKind \in CtxKinds
+        /\ shape \in ShapeSet \cap ShapesOf(kind)
+        /\ pclass \in (IF Together THEN ClassSet ELSE {"readonly"})        \* (the cluster batch sibling is a GET)
+        /\ path \in PathSet
+        /\ ctxKind = "cancel" => path = "pipelined"                        \* pipe.Do: a cancel-only context starts the pipeline
         /\ phase = "send" /\ sends = 0 /\ executed = 0 /\ last = "none" /\ result = "none"
         /\ attempts = 1 /\ redirects = 0 /\ just = NONE /\ resend = NONE /\ spins = 0
         /\ ctxDone = FALSE /\ closed = FALSE /\ hist = <<>>
 
 \* what the server side can do with one transmission
-ServerOutcomes == Replies \cup LoadingLike \cup Redirects \cup Transport
-                  \cup (IF kind # "dedicated" THEN {"expired-unsent"} ELSE {})
-                  \cup (IF AllowExpiredSent /\ kind # "dedicated" THEN {"expired-sent"} ELSE {})
+Expiries == (IF kind # "dedicated" THEN {"expired-unsent"} ELSE {})
+            \cup (IF AllowExpiredSent /\ kind # "dedicated" /\ path = "pipelined" THEN {"expired-sent"} ELSE {})
+            \cup (IF kind # "dedicated" /\ path = "sync" THEN {"expired-io"} ELSE {})
+ServerOutcomes ==
+    IF ClusterTx
+    THEN {"ok", "errreply", "MOVED", "ASK", "cut-before-exec", "cut-after-exec", "cut-mid-reply"}
+         \* (a refused block -- LOADING etc. at queueing time -- and lifetime expiry inside a block are not modelled)
+    ELSE ((Replies \cup LoadingLike \cup Redirects \cup Transport) \ ({"expired-io"} \cup (IF shape = "tx" THEN {"nil"} ELSE {})))
+         \cup Expiries             \* (inside a block a member is answered QUEUED or refused: no nil)
 
 \* conn.Do(ctx, cmd): pipe.Do returns ctx.Err() at once for a done context, the mux's dead wire ErrClosing after Close
 Send == /\ phase = "send"
@@ -60,24 +96,28 @@ Send == /\ phase = "send"
                      /\ executed' = executed + (IF Executes(o) THEN 1 ELSE 0)
                 /\ resend' = IF just # NONE /\ sends > 0 THEN just ELSE resend      \* the latest re-send's justification
         /\ phase' = "decide" /\ just' = NONE
-        /\ UNCHANGED <<kind, class, disable, ctxKind, result, attempts, redirects, spins, ctxDone, closed, hist>>
+        /\ UNCHANGED <<scen, result, attempts, redirects, spins, ctxDone, closed, hist>>
 
 \* environment: the caller's context ends / the caller closes the client
 \* scenario generation places them where the driver can place them deterministically: a context ends while the server
 \* holds the request (before it answers) or inside the RetryDelay callback; Close is called inside the RetryDelay callback
 InCallback == phase = "send" /\ just # NONE /\ just.verdict \in {"zero", "pos"}
 CtxEnd == /\ ctxKind # "none" /\ ~ctxDone /\ phase # "done" /\ ctxDone' = TRUE
-          /\ GenMode => ((phase = "decide" /\ last \notin Local \cup ExpiredOut) \/ InCallback)
-          /\ UNCHANGED <<kind, class, disable, ctxKind, phase, sends, executed, last, result, attempts, redirects, just,
-                         resend, spins, closed, hist>>
+          /\ GenMode => ((phase = "decide" /\ last \notin Local \cup ExpiredOut \cup {"expired-io"}) \/ InCallback)
+          /\ UNCHANGED <<scen, phase, sends, executed, last, result, attempts, redirects, just, resend, spins, closed, hist>>
 \* (a dedicated client keeps its own wire, which Client.Close() does not touch until the wire is given back: Close of the
 \*  parent client is not an event of a dedicated call)
 Close == /\ ~closed /\ phase # "done" /\ closed' = TRUE /\ kind # "dedicated"
          /\ GenMode => InCallback
-         /\ UNCHANGED <<kind, class, disable, ctxKind, phase, sends, executed, last, result, attempts, redirects, just,
-                        resend, spins, ctxDone, hist>>
+         /\ UNCHANGED <<scen, phase, sends, executed, last, result, attempts, redirects, just, resend, spins, ctxDone, hist>>
 
-Safe == class \in SafeClasses \/ BugIgnoreRetryable
+MemberSafe == class \in SafeClasses
+\* allRetryable(multi): every member of the batch; MULTI and EXEC are neither read-only nor retryable
+AllSafe == MemberSafe /\ (shape = "one" \/ (shape = "batch" /\ pclass \in SafeClasses))
+AnySafe == MemberSafe \/ (shape # "one" /\ pclass \in SafeClasses)
+Safe == \/ BugIgnoreRetryable
+        \/ IF kind \in ClusterKinds THEN MemberSafe                  \* doresultfn decides entry by entry
+           ELSE IF BugBatchAnyRetryable THEN AnySafe ELSE AllSafe
 CtxLive == ~ctxDone \/ BugRetryAfterCtx
 NotStopped == ~closed \/ BugRetryAfterClose
 \* singleClient.isRetryable / sentinelClient.isRetryable (err, ctx)
@@ -93,6 +133,8 @@ ClusterMode == IF last \in {"ok", "nil"} \/ ~NotStopped THEN "none"
                ELSE IF last = "errreply" /\ BugRetryErrReply THEN "retry"
                ELSE IF last \in RedisErrors THEN "none"
                ELSE IF CtxLive THEN "retry" ELSE "none"
+\* what the wrappers take for errConnExpired ("the request was not sent, use a new connection")
+LooksExpired == last \in ExpiredOut \/ (BugSyncExpired /\ last = "expired-io")
 
 J(v) == [kind |-> kind, class |-> class, disable |-> disable, prev |-> last, verdict |-> v, ctx |-> ctxDone, closed |-> closed]
 H(v, soon, sib, d) == [o |-> last, v |-> v, soon |-> soon, sib |-> sib, ctx |-> ctxDone, closed |-> closed, d |-> d]
@@ -109,12 +151,13 @@ Return(v, soon, sib) ==
     /\ hist' = Log(H(v, soon, sib, "return"))
     /\ UNCHANGED <<attempts, spins, redirects>>
 \* retryer.WaitOrSkipRetry: delay == 0 -> retry; delay > 0 -> retry unless the deadline comes first; delay < 0 -> no
+\* (in a batch the failing members are asked one after the other until one says yes: one consultation round per attempt)
 Consult == \E v \in {"neg", "zero", "pos"} : \E soon \in BOOLEAN :
               /\ soon => (v = "pos" /\ ctxKind = "deadline")
               /\ IF v = "zero" \/ (v = "pos" /\ ~soon) THEN Again(v, soon, FALSE, TRUE) ELSE Return(v, soon, FALSE)
 
-DecideSingle ==     \* singleClient.Do, sentinelClient.Do; standalone.Do wraps singleClient.Do
-    IF last \in ExpiredOut THEN Again("none", FALSE, FALSE, FALSE)                  \* if err == errConnExpired { goto retry }
+DecideSingle ==     \* singleClient.Do/DoMulti, sentinelClient.Do/DoMulti; standalone.Do/DoMulti wrap singleClient's
+    IF LooksExpired THEN Again("none", FALSE, FALSE, FALSE)                  \* if err == errConnExpired { goto retry } / recover:
     ELSE IF ~disable /\ Safe /\ IsRetryableErr THEN Consult
     ELSE IF kind = "standalone" /\ last = "REDIRECT" THEN Again("none", FALSE, FALSE, FALSE)   \* handleRedirect
     ELSE Return("none", FALSE, FALSE)
@@ -128,33 +171,47 @@ Redirected ==
        ELSE /\ phase' = "send" /\ just' = J("none") /\ hist' = Log(H("none", FALSE, FALSE, "again"))
             /\ UNCHANGED <<attempts, spins, result>>
 DecideCluster ==    \* clusterClient.do
-    IF last \in ExpiredOut THEN Again("none", FALSE, FALSE, FALSE)
+    IF LooksExpired THEN Again("none", FALSE, FALSE, FALSE)
     ELSE IF ClusterMode \in {"move", "ask"} THEN Redirected
     ELSE IF ClusterMode = "retry" /\ ~disable /\ Safe THEN Consult
     ELSE Return("none", FALSE, FALSE)
 DecideBatch ==      \* one entry of clusterClient.DoMulti: doretry / doresultfn, then the round decision of DoMulti
-    IF last \in ExpiredOut THEN Again("none", FALSE, FALSE, FALSE)
+    IF LooksExpired THEN Again("none", FALSE, FALSE, FALSE)
     ELSE IF ClusterMode \in {"move", "ask"} THEN Redirected
     ELSE IF ClusterMode = "retry" /\ ~disable /\ Safe THEN
          \E v \in {"neg", "zero", "pos"} : \E sib \in BOOLEAN :      \* sib: a sibling entry causes another round
             /\ IF (sib /\ AllowBatchSibling) \/ v \in {"zero", "pos"} THEN Again(v, FALSE, sib, TRUE) ELSE Return(v, FALSE, sib)
+    ELSE Return("none", FALSE, FALSE)
+\* a MULTI ... EXEC block in clusterClient.DoMulti: doresultfn asks RetryDelay for every retry-safe member that failed with
+\* a retryable error, but a block is only ever sent again as a whole, and only because a member was refused with MOVED / ASK
+DecideTx ==
+    IF ClusterMode \in {"move", "ask"} THEN Redirected
+    ELSE IF ClusterMode = "retry" /\ ~disable /\ (AnySafe \/ BugIgnoreRetryable) THEN
+         \E v \in {"neg", "zero", "pos"} :
+            \* (as-is variant: the block counts as redirectable once MULTI's +OK was read -- a reply cut in the middle)
+            IF AllowTxResend /\ v \in {"zero", "pos"} /\ last = "cut-mid-reply"
+            THEN Again(v, FALSE, FALSE, FALSE) ELSE Return(v, FALSE, FALSE)
     ELSE Return("none", FALSE, FALSE)
 
 Decide == /\ phase = "decide"
           /\ CASE kind \in {"single", "sentinel", "standalone"} -> DecideSingle
                [] kind = "dedicated" -> DecideDedicated
                [] kind = "cluster" -> DecideCluster
-               [] kind = "clusterbatch" -> DecideBatch
-          /\ UNCHANGED <<kind, class, disable, ctxKind, sends, executed, last, resend, ctxDone, closed>>
+               [] kind = "clusterbatch" /\ shape = "one" -> DecideBatch
+               [] ClusterTx -> DecideTx
+          /\ UNCHANGED <<scen, sends, executed, last, resend, ctxDone, closed>>
 
 Next == Send \/ Decide \/ CtxEnd \/ Close
 Spec == Init /\ [][Next]_vars
 
 \* ------------------------------------------------------------------------------------------ properties
-TypeOK == /\ kind \in Kinds /\ class \in Classes /\ phase \in {"send", "decide", "done"}
+TypeOK == /\ kind \in Kinds /\ class \in Classes /\ pclass \in Classes /\ phase \in {"send", "decide", "done"}
+          /\ shape \in {"one", "batch", "tx"} /\ path \in {"sync", "pipelined"}
           /\ last \in Outcomes \cup {"none"} /\ sends \in 0..MaxSends /\ executed \in 0..MaxSends
-\* every re-send passes through `resend`, so checking the latest one in every state checks all of them
-AllResends(P(_)) == resend # NONE => P(resend)
+\* every re-send passes through `resend`, so checking the latest one in every state checks all of them; a re-send of
+\* members that travel together is a re-send of each of them, to be justified for each of them with its own class
+AllResends(P(_)) == resend # NONE => /\ P(resend)
+                                     /\ Together => P([resend EXCEPT !.class = pclass])
 InvRetryOnlyWhenSafe      == AllResends(RetryOnlyWhenSafe)
 InvWithinPolicy           == AllResends(WithinPolicy)
 InvNoRetryAfterCtxOrClose == AllResends(NoRetryAfterCtxOrClose)
@@ -164,13 +221,18 @@ PlainRepliesReturnedAsIs  == /\ AllResends(PlainRepliesFinal)
 \* a done context or a closed client never keeps the wrapper looping (nothing would be sent, the call would spin)
 NoSpin == spins <= 1
 \* C03: MOVED / ASK / REDIRECT replies are not executions, every other re-send of a non-retryable command is excluded
-AtMostOnceNonRetryable == class = "plain" => executed <= 1
+\* (for members that travel together one execution of the transmission is an execution of each of them)
+AnyPlain == class = "plain" \/ (Together /\ pclass = "plain")
+AtMostOnceNonRetryable == AnyPlain => executed <= 1
 
 \* ------------------------------------------------------------------------------------------ scenario generation
 \* every finished call is one scenario: the inputs, the outcome script, and what the specification predicts
+\* (a reply stream cut in the middle of a batch: the tracked member's own reply may have been delivered)
 Results == {result} \cup (IF ctxDone THEN {"ctxdone"} ELSE {}) \cup (IF closed THEN {"closing"} \cup Transport ELSE {})
+           \cup (IF shape # "one" /\ result = "cut-mid-reply" THEN {"ok"} ELSE {})
 GenCase == phase = "done" =>
              PrintT(<<"CASE", ToJson([kind |-> kind, class |-> class, disable |-> disable, ctxKind |-> ctxKind,
+                                      shape |-> shape, pclass |-> pclass, path |-> path,
                                       script |-> hist, sends |-> sends, executed |-> executed,
                                       results |-> Results, resent |-> (resend # NONE)])>>)
 =============================================================================
